@@ -3,4 +3,4 @@ import enginecheck as ec
 from props import engcommon
 LEVEL = 'proof'; TRUSTED = engcommon.TRUSTED_ENGINE; ASSUMPTIONS = engcommon.ASSUMPTIONS_ENGINE
 def run(ctx):
-    engcommon.run_engine_property(ctx, 'C06', [('limits', lambda h, st, b, prev: ec.oracle_c06(h, st, b))], faults=0.3, feat=dict(pools=0.8, dyndep=0.35))
+    engcommon.run_engine_property(ctx, 'C06', plan_accept=600, oracles=[('limits', lambda h, st, b, prev: ec.oracle_c06(h, st, b))], faults=0.3, feat=dict(pools=0.8, dyndep=0.35))
